@@ -43,7 +43,7 @@ func TestC05(t *testing.T) {
 	runProp(t, &propSpec{
 		id: "C05",
 		profile: &Profile{
-			Name: "C05", MinSteps: 6, MaxSteps: 30, MaxClient: 2, BigData: true, MTU: true, Streams: true, V6: true, Fragments: []string{"chan", "perm"},
+			Name: "C05", MinSteps: 6, MaxSteps: 30, MaxClient: 2, BigData: true, MTU: true, Streams: true, V6: true, RealGen: true, Fragments: []string{"chan", "perm"},
 			Weights: map[string]int{"Allocate": 4, "Refresh": 2, "CreatePermission": 12, "ChannelBind": 12, "Send": 20, "ChannelData": 20, "PeerData": 30, "Sleep": 6},
 		},
 		nontrivial: func(st *Stats, sc *Script) bool {
